@@ -15,6 +15,7 @@
 //   J                         JitRuntime::_add(&p, &code) (flatten + relocate + copy into executable memory), then the
 //                             first code_size() bytes at p are read back and p is released                -> "J:ok:<size>:<rle>" | "J:<err>"
 //   K addr len                x86-64 assembler: call <absolute addr> into .text (address-table entry)  -> "K:<err>:<text size>"
+//   E id                      label bound at the end of section id; embed_label(label) into .text (RelocType::kRelToAbs) -> "E:<err>:<text size>:<label offset>"
 //   X base used               relocate_to_base(base, &summary)                                         -> "X:<err>:<reduction>"
 #include <asmjit/core.h>
 #include <asmjit/x86.h>
@@ -197,7 +198,8 @@ int main() {
         emit(std::string("Q:") + err_name(e) + ":" + rle(d.p(), size_t(n)) + (d.guards_ok() ? ":g1" : ":g0"));
       }
       else if (op == "J") {
-        if (fabricated_huge) { emit("J:unsafe"); continue; }
+        // layouts beyond 16 MiB are the allocator's business (it refuses very large requests), not the section functions'
+        if (fabricated_huge || code.code_size() > (size_t(1) << 24)) { emit("J:unsafe"); continue; }
         static JitRuntime rt;
         void* p = nullptr;
         Error e = rt._add(&p, &code);
@@ -217,6 +219,21 @@ int main() {
         Error e = as->call(Imm(addr));
         call_targets.push_back(addr);
         snprintf(tmp, sizeof(tmp), "K:%s:%zu", err_name(e), code.text_section()->buffer_size());
+        emit(tmp);
+      }
+      else if (op == "E") {
+        // embed_label: the 8-byte absolute address of a label bound at the current end of section `id` is embedded into .text
+        uint32_t id; in >> id;
+        if (!code.is_section_valid(id) || fabricated_huge) { emit("E:bad"); continue; }
+        if (!as) { as = new x86::Assembler(&code); }
+        Section* sec = code.section_by_id(id);
+        Label L = as->new_label();
+        Error e = as->section(sec);
+        uint64_t loff = as->offset();
+        if (e == Error::kOk) e = as->bind(L);
+        if (e == Error::kOk) e = as->section(code.text_section());
+        if (e == Error::kOk) e = as->embed_label(L);
+        snprintf(tmp, sizeof(tmp), "E:%s:%zu:%" PRIu64, err_name(e), code.text_section()->buffer_size(), loff);
         emit(tmp);
       }
       else if (op == "X") {
